@@ -78,7 +78,7 @@ MANIFEST = {
         "design_ref": "DESIGN.md 3/C03",
     }
 }
-PROPS = ["Nstd.Seq.Props", "Nstd.Seq.PropsSort", "Nstd.Seq.PropsAlias", "Nstd.Seq.PropsHeap", "Nstd.Seq.PropsLink", "Nstd.Seq.PropsSortG", "Nstd.Seq.PropsArr", "Nstd.Seq.PropsArr2", "Nstd.Seq.PropsArr3", "Nstd.Seq.PropsArr4", "Nstd.Seq.PropsSortT"]
+PROPS = ["Nstd.Seq.Props", "Nstd.Seq.PropsSort", "Nstd.Seq.PropsAlias", "Nstd.Seq.PropsHeap", "Nstd.Seq.PropsLink", "Nstd.Seq.PropsSortG", "Nstd.Seq.PropsArr", "Nstd.Seq.PropsArr2", "Nstd.Seq.PropsArr3", "Nstd.Seq.PropsArr4", "Nstd.Seq.PropsSortT", "Nstd.Seq.PropsListT"]
 LEAN_TARGETS = PROPS + ["drv_seq"]
 DRIVER = "drv_seq"
 
@@ -259,9 +259,23 @@ def translate_sort(repo=None):
         return False, "tools/gen_seq.py: " + str(e)
 
 
+GEN_LIST = C.LEAN / "Nstd" / "Generated" / "SeqList.lean"
+
+
+def translate_list(repo=None):
+    """(ok, message): List::insert(position, list) [list = *this] and List::clear of the CURRENT header ->
+    lean/Nstd/Generated/SeqList.lean (tools/gen_seq.py, part 4)"""
+    try:
+        return True, "List loops translated: " + gen_seq.generate_list(repo or C.REPO, GEN_LIST)
+    except gen_seq.Refuse as e:
+        return False, "tools/gen_seq.py refuses the current List loops (broken tie): " + str(e)
+    except OSError as e:
+        return False, "tools/gen_seq.py: " + str(e)
+
+
 def gen(ctx):
     ok, msg = translate()
-    for f in (translate_link, translate_arr, translate_sort):
+    for f in (translate_link, translate_arr, translate_sort, translate_list):
         ok2, msg2 = f()
         ok, msg = ok and ok2, msg + "; " + msg2
     if ctx is not None:
@@ -274,7 +288,7 @@ def setup():
     ok, msg = translate()
     if not ok:
         print("seq translate:", msg)
-    for f in (translate_link, translate_arr, translate_sort):
+    for f in (translate_link, translate_arr, translate_sort, translate_list):
         ok, msg = f()
         if not ok:
             print("seq translate:", msg)
